@@ -408,8 +408,13 @@ def check(prop, tier, run: Run, replay_case=None):
                 s = 1.0 if ci % 2 == 0 else 0.37
                 eps = math.sqrt(case["eps2"]) * s
                 pts = [[s * p[0], s * p[1]] for p in curve]
-                for fn_name, fn in (("_rdp", lambda: _rdp(np.array(pts, float), eps)),
-                                    ("get_piecewise_data_points", lambda: get_piecewise_data_points(curve=pts, is_hot_stream=bool(ci % 4 < 2), dt_diff_max=eps))):
+                forms = [("_rdp", lambda: _rdp(np.array(pts, float), eps)),
+                         ("get_piecewise_data_points", lambda: get_piecewise_data_points(curve=pts, is_hot_stream=bool(ci % 4 < 2), dt_diff_max=eps))]
+                if s == 1.0:      # the same table written in whole numbers (integer lists / an integer array): the answer may not depend on the number type
+                    ipts = [[int(p[0]), int(p[1])] for p in curve]
+                    forms += [("_rdp[int array]", lambda: _rdp(np.array(ipts), eps)),
+                              ("get_piecewise_data_points[int lists]", lambda: get_piecewise_data_points(curve=ipts, is_hot_stream=bool(ci % 4 < 2), dt_diff_max=eps))]
+                for fn_name, fn in forms:
                     try:
                         r = fn()
                     except Exception as e:
@@ -417,7 +422,7 @@ def check(prop, tier, run: Run, replay_case=None):
                     for clause, d in judge_rdp(pts, r, eps):
                         run.violation(clause, case, dict(d, fn=fn_name))
                     exp = [[s * p[0], s * p[1]] for p in case["result"]]
-                    if fn_name == "_rdp" and (len(exp) != len(r) or not np.allclose(np.asarray(exp), np.asarray(r))):
+                    if fn_name.startswith("_rdp") and (len(exp) != len(r) or not np.allclose(np.asarray(exp), np.asarray(r))):
                         run.drift.append(f"_rdp differs from spec on {curve} eps2={case['eps2']}")
                 if 2 < len(case["result"]) < len(curve):
                     nontriv.add(json.dumps([curve, case["eps2"]]))
